@@ -859,6 +859,17 @@ func c01Judge(k c01Case, res *c01Result, bad func(class, format string, a ...int
 	if int(tbl.RowsCount) != len(stored) {
 		bad("rowcount", "RowsCount %d but %d rows stored", tbl.RowsCount, len(stored))
 	}
+	if len(res.Order) > 0 {
+		// forced schedule: the blocks must be stored in key order whatever order they were completed in
+		for bi := 1; bi < len(res.Blocks); bi++ {
+			if len(res.Blocks[bi]) > 0 && len(res.Blocks[bi-1]) > 0 && len(res.Blocks[bi][0]) == len(k.Columns) && len(res.Blocks[bi-1][0]) == len(k.Columns) &&
+				!c19KeyLess(c19KeyOf(idx, res.Blocks[bi-1][0]), c19KeyOf(idx, res.Blocks[bi][0])) {
+				bad("rows-out-of-order", "blocks completed in the order %v are stored out of key order: block %d starts with key %q, block %d with %q",
+					res.Order, bi-1, c19KeyOf(idx, res.Blocks[bi-1][0]), bi, c19KeyOf(idx, res.Blocks[bi][0]))
+				break
+			}
+		}
+	}
 	if res.SchedDiff != "" {
 		bad("schedule-dependent-table", "%s (completion order of the blocks: %v)", res.SchedDiff, res.Order)
 	}
@@ -1200,6 +1211,75 @@ func c01ForcedSchedule(pattern, n int) (deps [][]int, arrival []int, workers int
 	return deps, arrival, workers
 }
 
+// c01ForcedOrder forces the blocks to complete exactly in the given order (a permutation of
+// 0..n-1): every block is held until its predecessor in that order has been completed, with
+// one effective worker per block (n+2 requested workers), so every permutation is reachable.
+func c01ForcedOrder(order []int) (deps [][]int, arrival []int, workers int) {
+	n := len(order)
+	deps = make([][]int, n)
+	arrival = make([]int, n)
+	for rank, off := range order {
+		arrival[off] = rank
+		if rank > 0 {
+			deps[off] = []int{order[rank-1]}
+		}
+	}
+	return deps, arrival, n + 2
+}
+
+// c01Perms lists every permutation of 0..n-1 in lexicographic order.
+func c01Perms(n int) [][]int {
+	var out [][]int
+	var rec func(prefix []int, used int)
+	rec = func(prefix []int, used int) {
+		if len(prefix) == n {
+			out = append(out, append([]int{}, prefix...))
+			return
+		}
+		for i := 0; i < n; i++ {
+			if used&(1<<uint(i)) == 0 {
+				rec(append(prefix, i), used|1<<uint(i))
+			}
+		}
+	}
+	rec(nil, 0)
+	return out
+}
+
+// forcedOrderCases: for tables of 3 and 4 blocks EVERY completion order of the blocks (6 + 24),
+// plus count random orders of 5 and 6 blocks.
+func (g *c01Gen) forcedOrderCases(count int) []c01Case {
+	ctx := g.ctx
+	var orders [][]int
+	orders = append(orders, c01Perms(3)...)
+	orders = append(orders, c01Perms(4)...)
+	for i := 0; i < count; i++ {
+		orders = append(orders, ctx.Rng.Perm(5+i%2))
+	}
+	var out []c01Case
+	for i, order := range orders {
+		nblocks := len(order)
+		nrows := nblocks * 255
+		if i%2 == 1 {
+			nrows -= 1 + ctx.Pick(200)
+		}
+		rows := make([][]string, nrows)
+		for j := range rows {
+			rows[j] = []string{fmt.Sprintf("%04d", j), c01Cells[ctx.Pick(len(c01Cells))]}
+		}
+		ctx.Rng.Shuffle(len(rows), func(a, b int) { rows[a], rows[b] = rows[b], rows[a] })
+		deps, arrival, workers := c01ForcedOrder(order)
+		kind := 0
+		if i%4 == 3 {
+			kind = 2
+		}
+		out = append(out, c01Case{Kind: kind, Columns: []string{"a", "b"}, PKNames: []string{"a"}, Rows: rows,
+			RunSize: []uint64{g.huge, 4096}[i%2], Arrival: arrival, Workers: workers, Delim: ',', Deps: deps})
+		ctx.Count(fmt.Sprintf("forced_completion_orders_%d_blocks", nblocks))
+	}
+	return out
+}
+
 // forcedCases builds tables of 3..5 blocks with unique keys whose ingestion is forced to
 // complete the blocks out of offset order.
 func (g *c01Gen) forcedCases(count int) []c01Case {
@@ -1460,6 +1540,10 @@ func genC01(ctx *Ctx) []Case {
 	}
 	for _, k := range g.forcedCases(nf) {
 		g.add("forced-schedule", true, k)
+	}
+	// every completion order of 3 and 4 blocks (one worker per block)
+	for _, k := range g.forcedOrderCases(nf) {
+		g.add("forced-order", true, k)
 	}
 	// ---- through the CLI: wrgl commit + wrgl export ----
 	nc := 8
